@@ -178,15 +178,64 @@ def finish(o: Outcome, *, level: str = "model_checking") -> int:
     return 1
 
 
+# ---------------------------------------------------------------- time limit for calls into the code under test
+import signal
+from contextlib import contextmanager
+
+
+class CodeHang(Exception):
+    """the code under test did not return within the limit (reported as a violation, not machinery)"""
+
+
+@contextmanager
+def time_limit(seconds: int):
+    def _raise(signum, frame):
+        raise CodeHang(f"no result after {seconds}s")
+    old = signal.signal(signal.SIGALRM, _raise)
+    signal.alarm(seconds)
+    try:
+        yield
+    finally:
+        signal.alarm(0)
+        signal.signal(signal.SIGALRM, old)
+
+
 # ---------------------------------------------------------------- parallel map
-def pmap(fn: Callable, items: Iterable, *, procs: int = 16, chunk: int = 64) -> list:
+class CodeHangFound(Exception):
+    """raised in the parent when a worker's call into the code under test did not return"""
+    def __init__(self, items):
+        super().__init__(f"{len(items)} call(s) into the code under test did not return")
+        self.items = items
+
+
+class _Guard:
+    def __init__(self, fn, limit):
+        self.fn, self.limit = fn, limit
+
+    def __call__(self, item):
+        try:
+            with time_limit(self.limit):
+                return self.fn(item)
+        except CodeHang:
+            return ("__hang__", item)
+
+
+def pmap(fn: Callable, items: Iterable, *, procs: int = 16, chunk: int = 64, limit: int = 60) -> list:
+    """parallel map; every call runs under a time limit - a call that does not return is a
+    finding about the code under test (CodeHangFound), not a hung check"""
     items = list(items)
     if not items:
         return []
+    g = _Guard(fn, limit)
     if procs <= 1 or len(items) < 8:
-        return [fn(x) for x in items]
-    with ProcessPoolExecutor(max_workers=procs) as ex:
-        return list(ex.map(fn, items, chunksize=max(1, min(chunk, len(items) // procs or 1))))
+        out = [g(x) for x in items]
+    else:
+        with ProcessPoolExecutor(max_workers=procs) as ex:
+            out = list(ex.map(g, items, chunksize=max(1, min(chunk, len(items) // procs or 1))))
+    hung = [r[1] for r in out if isinstance(r, tuple) and len(r) == 2 and r[0] == "__hang__"]
+    if hung:
+        raise CodeHangFound(hung)
+    return out
 
 
 def seed_from_env(default: int = 20261004) -> int:
